@@ -1,5 +1,8 @@
 //! Executable transcriptions of the spec functions in /verif/prelude/apath_spec.rs, compared with the
 //! real `conserve::Apath` on enumerated inputs.
+//! Round 8, `apath_valid`: on every enumerated string also `str::parse::<Apath>()` and the serde decoding succeed exactly
+//! when `is_valid` / the transcription say well-formed (C11, C10), and Display / to_string / Deref / AsRef / String::from /
+//! the JSON encoding of a well-formed path give back its raw text, control characters included (C12, C16).
 
 use std::cmp::Ordering;
 
@@ -184,19 +187,74 @@ pub fn replay_cmp(input: &Value) -> Value {
 pub fn check_valid(s: &str) -> Option<Value> {
     let real = Apath::is_valid(s);
     let exp = valid(s);
-    if real == exp {
-        None
-    } else {
-        Some(json!({"found": true, "kind": "apath_valid", "input": {"s": s}, "real": real, "expected": exp,
-            "explain": format!("Apath::is_valid({s:?}) returned {real}, format.md says {exp}")}))
+    if real != exp {
+        return Some(json!({"found": true, "kind": "apath_valid", "input": {"s": s}, "real": real, "expected": exp,
+            "explain": format!("Apath::is_valid({s:?}) returned {real}, format.md says {exp}")}));
     }
+    // round 8: the CHECKED constructors accept exactly the well-formed paths: `str::parse` and the serde decoding (which
+    // is what reads every apath of an index hunk) agree with `is_valid` (and with the transcription) on every string
+    let parsed = s.parse::<Apath>();
+    if parsed.is_ok() != exp {
+        return Some(json!({"found": true, "kind": "apath_valid", "input": {"s": s}, "real": format!("parse::<Apath>() is {}", if parsed.is_ok() { "Ok" } else { "Err" }), "expected": exp,
+            "explain": format!("{s:?}.parse::<Apath>() {} although Apath::is_valid says {real} and format.md says {exp}: the checked constructor does not accept exactly the well-formed paths",
+                if parsed.is_ok() { "succeeds" } else { "fails" })}));
+    }
+    let js = serde_json::to_string(s).expect("a string encodes as JSON");
+    let decoded = serde_json::from_str::<Apath>(&js);
+    if decoded.is_ok() != exp {
+        return Some(json!({"found": true, "kind": "apath_valid", "input": {"s": s}, "real": format!("decoding the JSON string {js} as an Apath is {}", if decoded.is_ok() { "Ok" } else { "Err" }), "expected": exp,
+            "explain": format!("serde decoding of {js} as an Apath {} although the path is {}: an index could carry a path with an empty, \".\" or \"..\" component",
+                if decoded.is_ok() { "succeeds" } else { "fails" }, if exp { "well-formed" } else { "not well-formed" })}));
+    }
+    // an apath IS its text: Display / to_string / String::from / Deref / the JSON encoding all give back the raw string,
+    // control characters included (callers key sets and maps on `to_string()` and look up raw slices)
+    if let (Ok(a), Ok(d)) = (parsed, decoded) {
+        let shown = format!("{a}");
+        let views: [(&str, String); 6] = [("format!(\"{}\", apath)", shown), ("apath.to_string()", a.to_string()), ("&*apath (Deref)", (*a).to_string()), ("AsRef<str>", AsRef::<str>::as_ref(&a).to_string()),
+            ("String::from(apath)", String::from(a.clone())), ("the decoded apath", d.to_string())];
+        for (what, got) in views {
+            if got != s {
+                return Some(json!({"found": true, "kind": "apath_valid", "input": {"s": s}, "real": format!("{what} = {got:?}"), "expected": s,
+                    "explain": format!("{what} of the apath {s:?} is {got:?}: the textual form of an apath is not its raw text")}));
+            }
+        }
+        let enc = serde_json::to_string(&a).expect("an apath encodes as JSON");
+        if enc != js {
+            return Some(json!({"found": true, "kind": "apath_valid", "input": {"s": s}, "real": enc, "expected": js, "explain": "the JSON encoding of an apath is not the JSON encoding of its text"}));
+        }
+    }
+    None
 }
 
+/// Names with control and other unusual characters (all well-formed): Display must give the raw text.
+const ODD_VALID: &[&str] = &["/a\nb", "/a\tb", "/\u{1}", "/a\u{1}b/c", "/monthly\nreports/summary", "/esc\u{1b}[31m", "/del\u{7f}", "/nel\u{85}x", "/cr\rlf\n", "/a\nb/sub/deeper/z", "/\u{9f}", "/a\\nb", "/q\"uote'",
+    "/a/.. ", "/a/ ..", "/...", "/..a", "/a..", "/a/...", "/.a/..b"];
+/// Ill-formed strings beyond the enumerated lengths.
+const ODD_INVALID: &[&str] = &["/..", "/.", "//", "/a/..", "/a/.", "/a//", "/a/", "/a/b/..", "/a/b/.", "/a/b/../c", "/a/./b", "/ab/cd/..", "/a\nb/..", "/\n/.", "/a\0", "/a/b\0c", "\0", "/é/..", "/日本/..", "/a/../..",
+    "/../a", "/./a", "a/..", "..", ".", "", "a", "/a/b/", "/a//b"];
+
 pub fn search_valid() -> Value {
-    // all strings of length <= 5 over a small alphabet of bytes that matter
-    let alpha: &[&str] = &["/", ".", "a", "\0", "é", " "];
-    let mut cur: Vec<String> = vec![String::new()];
+    // all strings of length <= 6 over a small alphabet of bytes that matter: the enumeration holds "/..", "/a/..", "/.",
+    // "/a/.", "//", "/a/", "/a//", "/a\0", "/a\nb", ...
+    let alpha: &[&str] = &["/", ".", "a", "\0", "é", " ", "\n"];
     let mut n = 0u64;
+    for s in ODD_VALID {
+        if !valid(s) {
+            return json!({"found": false, "kind": "apath_valid", "error": format!("setup failed: {s:?} is meant to be well-formed")});
+        }
+    }
+    for s in ODD_INVALID {
+        if valid(s) {
+            return json!({"found": false, "kind": "apath_valid", "error": format!("setup failed: {s:?} is meant to be ill-formed")});
+        }
+    }
+    for s in ODD_VALID.iter().chain(ODD_INVALID.iter()) {
+        n += 1;
+        if let Some(v) = check_valid(s) {
+            return v;
+        }
+    }
+    let mut cur: Vec<String> = vec![String::new()];
     for _len in 0..=6 {
         for s in &cur {
             n += 1;
